@@ -2,6 +2,7 @@ package main
 
 import (
 	"fmt"
+	"sync"
 	"go/types"
 
 	"golang.org/x/tools/go/ssa"
@@ -48,7 +49,7 @@ type State struct {
 	spec   bool // executing a contract/spec function: no obligations, reads are total
 	assume bool // evaluating a contract as an assumption (BufIs binds)
 	globals map[string]int
-	qfacts []QFact
+	qfActive map[string]bool // quantified-fact symbols that occur in the path condition
 	qdone  map[string]bool
 	trace  *readTrace
 	cut    bool
@@ -59,12 +60,64 @@ type State struct {
 	noPre  bool // values created now are not known to be pre-existing memory (results of contracted calls)
 }
 
-// QFact is an assumed universally quantified fact, kept for instantiation at later reads.
+// QFact: a universally quantified formula that occurs in a contract is named by a Bool symbol qf (defined by
+// the axiom qf <=> forall k. Body, emitted with every precise query). The fact is remembered so that the engine
+// can instantiate it itself — manual E-matching — at the reads of the memory it talks about: the instance
+// (qf => Body[k := i]) is a quantifier-free consequence of the axiom, valid on every path.
 type QFact struct {
-	Key  string // base ref of the slice read inside the body
-	Off  *Term  // offset of that slice
-	BV   *Term
-	Body *Term
+	QF    *Term  // the defining Bool symbol
+	Key   string // base ref of the slice (bytes or elements) read inside the body
+	Shift *Term  // the body reads absolute index Shift + BV of that memory
+	BV    *Term
+	Body  *Term
+}
+
+var (
+	allQFacts  []*QFact
+	qfOfTerm   = map[*Term][]string{} // qf symbols mentioned by a term (cached)
+)
+
+var qfMu sync.Mutex
+
+func qfNames(t *Term) []string {
+	qfMu.Lock()
+	defer qfMu.Unlock()
+	if v, ok := qfOfTerm[t]; ok {
+		return v
+	}
+	m := map[string]*Term{}
+	t.leaves(m)
+	var out []string
+	for n, l := range m {
+		if l.QDef != nil {
+			out = append(out, n)
+		}
+	}
+	qfOfTerm[t] = out
+	return out
+}
+
+// instantiate assumes the instances of the active quantified facts (those whose defining symbol occurs in the
+// path condition) that talk about absolute index abs of the memory with base key.
+func (s *State) instantiate(key string, abs *Term) {
+	if s.spec || len(s.qfActive) == 0 {
+		return
+	}
+	for n, f := range allQFacts {
+		if f.Key != key || !s.qfActive[f.QF.Leaf] {
+			continue
+		}
+		k := Sub(abs, f.Shift)
+		id := fmt.Sprintf("%d|%s", n, k.String())
+		if s.qdone == nil {
+			s.qdone = map[string]bool{}
+		}
+		if s.qdone[id] {
+			continue
+		}
+		s.qdone[id] = true
+		s.pc = append(s.pc, Implies(f.QF, subst(f.Body, f.BV.Leaf, k)))
+	}
 }
 
 type readTrace struct {
@@ -84,7 +137,7 @@ func newState() *State {
 func (s *State) clone() *State {
 	n := &State{pc: append([]*Term{}, s.pc...), cells: make(map[int]Val, len(s.cells)), heap: make(map[string]*Term, len(s.heap)),
 		objs: make(map[int]Obj, len(s.objs)), text: make(map[string][]Piece, len(s.text)), nalloc: s.nalloc, spec: s.spec, assume: s.assume,
-		qfacts: append([]QFact{}, s.qfacts...), qdone: map[string]bool{}, trace: s.trace, globals: map[string]int{}, cut: s.cut, goal: s.goal, root: s.root}
+		qdone: map[string]bool{}, trace: s.trace, globals: map[string]int{}, cut: s.cut, goal: s.goal, root: s.root}
 	for k, v := range s.globals {
 		n.globals[k] = v
 	}
@@ -92,6 +145,12 @@ func (s *State) clone() *State {
 		n.validCache = make(map[string]bool, len(s.validCache))
 		for k := range s.validCache {
 			n.validCache[k] = true
+		}
+	}
+	if len(s.qfActive) > 0 {
+		n.qfActive = make(map[string]bool, len(s.qfActive))
+		for k := range s.qfActive {
+			n.qfActive[k] = true
 		}
 	}
 	for k := range s.qdone {
@@ -115,6 +174,12 @@ func (s *State) clone() *State {
 func (s *State) assumeT(t *Term) {
 	if !t.IsTrue() {
 		s.pc = append(s.pc, t)
+		for _, n := range qfNames(t) {
+			if s.qfActive == nil {
+				s.qfActive = map[string]bool{}
+			}
+			s.qfActive[n] = true
+		}
 	}
 }
 
@@ -224,24 +289,7 @@ func (s *State) readByte(sl SliceV, idx *Term) *Term {
 		s.trace.bases[sl.Base.String()] = sl.Off
 		s.trace.reads = append(s.trace.reads, traceRead{sl.Base.String(), Add(sl.Off, idx)})
 	}
-	if !s.spec && len(s.qfacts) > 0 {
-		key := sl.Base.String()
-		for n, f := range s.qfacts {
-			if f.Key != key {
-				continue
-			}
-			k := Add(Sub(sl.Off, f.Off), idx)
-			id := fmt.Sprintf("%d|%s", n, k.String())
-			if s.qdone == nil {
-				s.qdone = map[string]bool{}
-			}
-			if s.qdone[id] {
-				continue
-			}
-			s.qdone[id] = true
-			s.assumeT(subst(f.Body, f.BV.Leaf, k))
-		}
-	}
+	s.instantiate(sl.Base.String(), Add(sl.Off, idx))
 	return Select(s.arrOf(sl.Base), Add(sl.Off, idx), 8)
 }
 
